@@ -15,6 +15,10 @@ EXPLANATION = (
     "for 0..3 raw rows, every header/limit ordering, mode and outcome: the cursor's line at the time row k is validated "
     "is k-1 (rows are numbered from 1 with header rows counted, because Location.__str__ renders line+1 / cell+1, decided "
     "over region representatives with unit-slope arithmetic only). (O4.3) CutplaceError stores copies of locations."
+    " Added in rounds 6 and 7: (O4.6/O4.7) the item that is judged is the cell of the sheet (C15's ODS cell texts,"
+    " C16's Excel cell values). (O4.8) Location, its copy, its text and Reader() over every kind of source name"
+    " (path, stream with a text name, none, None, a file descriptor, 0, empty, bytes): a source without a usable"
+    " name is shown as <io>."
 )
 ASSUMPTIONS = ["field.validated and check.check_row behave as decided under C02/C03/C05; raw readers deliver the file's rows (C12-C16)"]
 
